@@ -151,8 +151,20 @@ def check_match(F, crate, body, m, adt, label, relevant, is_traversal, report, e
                     continue
                 key = "%s::%s.%s" % (label, vname, fname)
                 n += 1
-                if key in exceptions:
-                    report(key, True, F.where(body, a), "reviewed exception: " + exceptions[key], {"exception": exceptions[key]})
+                exc = exceptions.get(key)
+                if isinstance(exc, tuple):
+                    # (reason, {other_field: "Some"|"None"|variant name}): only for arms whose pattern pins that field
+                    reason, pins = exc
+                    for of, want in pins.items():
+                        op = fpats.get(of)
+                        res = hirq.pat_res(hirq.strip_ref(op)) if isinstance(op, dict) else None
+                        if not res or res.split("::")[-1] != want:
+                            exc = None
+                            break
+                    else:
+                        exc = reason
+                if exc:
+                    report(key, True, F.where(body, a), "reviewed exception: " + exc, {"exception": exc})
                     continue
                 if whole_reject is not None and whole_reject(a):
                     report(key, True, F.where(body, a), "the arm rejects the whole value", {"whole_reject": True})
@@ -252,3 +264,33 @@ def check_impl(F, crate, body, relevant, is_traversal, report, exceptions=None, 
                    "field `%s` (%s) of %s never reaches a traversal call" % (fname, fty, impl_self.split("::")[-1]),
                    {"field": fname, "type": fty})
     return n
+
+
+def traverser_closure(crate, base, candidates, relevant, max_iter=20):
+    """Least fixpoint of helper functions that pass a parameter of a relevant type on to a traversal:
+    base(callee) -> bool recognises the traversal methods themselves; candidates are fact bodies.
+    A candidate becomes a traverser when some parameter whose type can contain a relevant type (or a local derived
+    from it) is an input of a call to a traverser. Returns {npath: [parameter names]}."""
+    trav = {}
+
+    def is_trav(c):
+        return base(c) or c in trav
+    for _ in range(max_iter):
+        changed = False
+        for b in candidates:
+            if b["npath"] in trav or "hir" not in b:
+                continue
+            names = []
+            for p, ty in zip(b.get("params", []), b.get("inputs", [])):
+                if p.get("k") != "Bind" or not mentions(ty, relevant):
+                    continue
+                der = derived_lids(b["hir"], {p["lid"]})
+                tcs = traversal_calls(b["hir"], is_trav)
+                if any(any(hirq.uses_local(i, l) for l in der) for c in tcs for i in call_inputs(c)):
+                    names.append(p.get("name"))
+            if names:
+                trav[b["npath"]] = names
+                changed = True
+        if not changed:
+            break
+    return trav
